@@ -77,21 +77,24 @@ Theorem C11_one_origin_per_topic_single : forall g cx rq c,
 Proof. exact one_origin_single. Qed.
 Print Assumptions C11_one_origin_per_topic_single.
 
-(* One origin per topic, threaded processor with the repaired wiring (the divider feeds only outputs that
-   are not loader-fed); it is the same wiring as the post office's. *)
-Theorem C11_one_origin_per_topic_threaded_fixed : forall g cx rq c,
+(* One origin per topic, threaded processor (Model: wiring_fixed = ThreadedMailboxProcessor.__init__ since
+   /repo commit e1cd0b8: the divider of a multi-output plugin feeds only outputs that are not loader-fed);
+   it is the same wiring as the post office's. *)
+Theorem C11_one_origin_per_topic_threaded : forall g cx rq c,
   wf_graph g -> get_components g cx rq = Ok c ->
   one_origin g c (wiring_fixed g c) /\ wiring_single g c = Ok (wiring_fixed g c).
 Proof. exact one_origin_threaded_fixed. Qed.
-Print Assumptions C11_one_origin_per_topic_threaded_fixed.
+Print Assumptions C11_one_origin_per_topic_threaded.
 
-(* The threaded wiring of the pinned tree (Model: wiring_pinned).  Full statement: *)
+(* Documentation of defect D5 (repaired by e1cd0b8): the threaded wiring BEFORE the fix (Model: wiring_pinned,
+   the divider feeds ALL outputs).  Full statement: *)
 Definition C11_full_one_origin_threaded_pinned : Prop := full_one_origin_threaded_pinned.
-(* refuted by the D5 configuration (a stored output of a running multi-output plugin gets two senders) *)
+(* refuted by the D5 configuration (a stored output of a running multi-output plugin gets two senders); the
+   harness replays this configuration on the real code on every run, so a revert of the fix is a VIOLATION *)
 Theorem C11_one_origin_threaded_pinned_refuted : ~ C11_full_one_origin_threaded_pinned.
 Proof. exact one_origin_threaded_pinned_refuted. Qed.
 Print Assumptions C11_one_origin_threaded_pinned_refuted.
-(* and proved when no running multi-output plugin has a loader-fed output *)
+(* and it was right exactly when no running multi-output plugin has a loader-fed output *)
 Theorem C11_one_origin_threaded_pinned_partial : forall g cx rq c,
   wf_graph g -> get_components g cx rq = Ok c ->
   no_loader_fed_sibling g c -> one_origin g c (wiring_pinned g c).
